@@ -1053,6 +1053,8 @@ class Symex:
             return getattr(obj.node, "name", "<lambda>")
         if hasattr(obj, "sx_getattr"):
             return obj.sx_getattr(self, attr, node)
+        if obj is None:
+            raise Raised("AttributeError", f"'NoneType' object has no attribute '{attr}'", node)
         self.unsupported(node, f"attribute {attr} of {type(obj).__name__}")
 
     def find_method(self, clsref, name, _seen=None):
